@@ -204,7 +204,7 @@ def finish(prop, tier, reports, t0, level="model_checking", extra_cov=None, must
             spurious.append(c)
             continue
         if not rr["reproduced"]:
-            if not c.get("from_unknown"):
+            if not c.get("from_unknown") and not c.get("hypothesis"):
                 spurious.append(c)
             continue
         k = match_known(prop, c.get("cls", {}), known)
